@@ -17,6 +17,8 @@ RBOX = "ReusableBoxRecvFuture (subscriber.rs:249-277 over reusable_box.rs) is a 
 UNIT_TRUST = {
     "vector": [IMBL, ITERS, BCAST, STD, "R-LOCK: Sender::send/subscribe and broadcast_diff/subscribe take &mut self (sequential execution)", "R-PANIC: panic!(..) => { assert(state unchanged); diverge() }", "vector_map is R-EXT (element-wise, order-preserving map through the closure)"],
     "subscriber": [IMBL, BCAST, TASK, RBOX, STD, "R-PIN: self: Pin<&mut Self> => &mut self", "R-BREAKVAL: loop-with-break-value desugared", "vstd specs for Vec, vec::IntoIter (remaining() is prophetic), Option, mem::replace, unreachable_unchecked (requires false)"],
+    "transaction": [IMBL, BCAST, STD, "R-MUTSELF: `fn commit(mut self)` => `fn commit(self) { let mut this = self; … }` (Verus has no `mut self`)", "R-PANIC on insert/set/remove/entry", "R-TRAIT: Drop::drop / Deref::deref of the entry types verified as inherent methods (a trait method cannot carry a precondition)", "vstd specs for Vec (push, clear, is_empty), mem::take (assume_specification)"],
+    "entry": [IMBL, BCAST, STD, "R-TRAIT: Drop::drop / Deref::deref verified as inherent methods", "ObservableVector::set/remove appear with the clauses proved in unit `vector`"],
     "state": [TASK, "prelude/wakerlist.rs: the waker list is a sequence; drain(..) and mem::take empty it — ASSUMED", "prelude/rwlock_seq.rs (R-LOCK): std::sync::RwLock in a sequential execution: read() gives &M, write()/get_mut() give &mut M; poll_update/close take &mut self — everything about concurrent access is NOT decided", "PartialEq::ne and state::hash are deterministic functions of the values (axiom_ne, spec_hash); state::hash and state::wake are R-EXT (trusted; wake's effect on the wakers is covered by the bounded check only)", "the version counter stays below u64::MAX (requires on notifying setters)"],
     "head": [IMBL, ITERS, SMALLVEC, STD, "R-INST: S::Item instantiated to VectorDiff<T> (single-diff container) in update_limit/constructors"],
     "tail": [IMBL, ITERS, SMALLVEC, STD, "R-INST: element type instantiated to T"],
@@ -47,19 +49,19 @@ PROPS = {
         "Sequential: poll_update yields None iff version==0; close sets version 0; notifying setters keep an open state open (version>=1 stays >=1).",
         "sequential; Drop of Observable/SharedObservable, upgrade/downgrade and into_shared not yet under contract in this round; concurrent last drops not decided",
         VERUS, ["handle layer (shared.rs/unique.rs Drop, upgrade) not yet under contract", "concurrent last drops are not decided"]),
-    "C05": P("proof", ["vector", "subscriber"], ["sub"],
+    "C05": P("proof", ["vector", "subscriber", "transaction", "entry"], ["sub"],
         "Verus proves: each of the eleven mutators changes the contents like a plain vector and, iff a receiver exists, appends exactly one message carrying exactly the matching diff (emittable on the old contents, producing the new contents) and the new state; documented no-ops change nothing; subscribe snapshots values and a receiver positioned at the end of the log. Both subscriber streams deliver the queued diffs in FIFO order (unbatched: head of the backlog, rest stays queued; batched: the concatenation of all queued messages).",
         "channel FIFO is tokio's (assumed, exercised by the bounded runs); transaction/entry units pending; R-LOCK sequential",
         VERUS + "; " + BND, [BOUNDED_NOTE]),
-    "C06": P("proof", ["subscriber", "vector"], ["sub"],
+    "C06": P("proof", ["subscriber", "vector", "transaction"], ["sub"],
         "Verus proves (relative to the assumed channel contract): a lagged receiver gets exactly Reset{state of the newest retained message} and its queue is drained (handle_lag loop invariant), the `unreachable!` after a lag is unreachable, every message carries the state after it (broadcast_diff), each batched item leaves the queue empty.",
         "'Reset only if more than capacity updates were pending' and retention are tokio's behaviour (assumed)",
         VERUS + "; " + BND, [BOUNDED_NOTE]),
-    "C07": P("proof", ["subscriber"], ["sub"],
-        "So far: Verus proves the batched stream yields whole messages, never an empty batch (given the message invariant), and never splits one; the transaction functions are bounded in this round (every ending of 1-4-op transactions under all poll patterns).",
-        "transaction.rs contracts pending: commit/rollback/drop are bounded only",
-        VERUS + " (stream side); " + BND + " (transaction side)", [BOUNDED_NOTE]),
-    "C08": P("proof", ["subscriber"], ["sub"],
+    "C07": P("proof", ["transaction", "subscriber"], ["sub"],
+        "Verus proves the invariant tx_wf over every function of transaction.rs: operations touch only the working copy (the wrapped ObservableVector, contents and log, is framed unchanged), the batch always takes the pre-transaction contents to the working contents (all diffs emittable), clear leaves exactly [Clear], rollback restores contents and empties the batch, drop does nothing, commit stores the working contents and appends exactly one Many(batch) message with that state iff the batch is non-empty. The batched stream yields whole messages and never an empty batch.",
+        "channel behaviour is tokio's; R-MUTSELF rewrite on commit; sequential",
+        VERUS + "; " + BND, [BOUNDED_NOTE]),
+    "C08": P("proof", ["subscriber", "transaction"], ["sub"],
         "Verus proves: both streams return None only if the channel is closed, the receiver did not lag and nothing is queued; closed with a non-empty queue still delivers; handle_lag on a closed channel returns the final state (the repaired F1).",
         "wake-on-drop is tokio's Sender::drop (bounded check with a flag waker)",
         VERUS + "; " + BND, [BOUNDED_NOTE]),
@@ -99,10 +101,10 @@ PROPS = {
         "Bounded so far: after every operation of every enumerated handle history (clone, subscribe, downgrade, upgrade, into_shared, drops; at most 3 owners, 3 subscribers, 2 weak references) observable_count, subscriber_count, strong_count and weak_count reported by every owner equal the model's numbers, for both lock flavours.",
         "bounded stand-in, exhaustive in the stated scope; handle-count contracts pending",
         BND, [BOUNDED_NOTE]),
-    "C17": P("proof", ["vector"], [],
-        "So far: Verus proves for the eleven ObservableVector mutators the plain-vector result and return value, and (R-PANIC) that at every panic site nothing has been changed or sent, and that a normal return implies the index was in range. Transaction mutators and entry traversal pending.",
-        "transaction.rs / entry.rs contracts pending in this round",
-        VERUS, ["transaction and entry functions are not yet under contract"]),
+    "C17": P("proof", ["vector", "transaction", "entry"], [],
+        "Verus proves for every ObservableVector and transaction mutator the plain-vector result and return value, (R-PANIC) that at every panic site (insert/set/remove/entry out of range) nothing has been changed, batched or sent, and that a normal return implies the index was in range; for entry.rs and the transaction entries: next offers the element at the cursor iff in range, set replaces it, remove removes it WITHOUT advancing the borrowed cursor, drop of a borrowed entry advances it by one; and the lemma over that cursor machine: whatever the per-element decisions (keep/set/remove/set-then-remove/stop), every original element is offered exactly once in index order and an early exit leaves the rest untouched.",
+        "Rust runs Drop exactly once for an entry not consumed by remove (R-TRAIT: drop/deref are verified as inherent methods); for_each's loop over a caller closure is not under contract",
+        VERUS, ["for_each (while-let over a caller-supplied FnMut) is not under contract", "implicit drops are Rust's"]),
     "C18": P("proof", ["vector"], [],
         "Verus proves apply(d, vec) performs the spec change for every variant whenever insert/set/remove are in range (no other stand-in precondition, i.e. no other panic, is reachable), map rebuilds each variant with the closure applied to every contained value (vector_map trusted), and the lemma: for a pure mapping, apply(map(d), map(s)) == map(apply(d, s)); identity mapping gives an equal diff.",
         "vector_map (into_iter().map().collect()) is R-EXT; imbl panics are the stand-in's preconditions",
